@@ -124,6 +124,9 @@ func descForM(rt reflect.Type, memo map[reflect.Type]*desc) *desc {
 		for i := 0; i < rt.NumField(); i++ {
 			sf := rt.Field(i)
 			f := fieldDesc{d: descForM(sf.Type, memo)}
+			if sf.PkgPath != "" { // unexported: not part of the encoding, not touched by the decoder
+				f.ignore, f.unexported = true, true
+			}
 			for _, tg := range strings.Split(sf.Tag.Get("rlp"), ",") {
 				switch tg {
 				case "-":
@@ -179,7 +182,9 @@ func build(d *desc, rv reflect.Value, v *mval) {
 		}
 	case kStruct:
 		for i, f := range d.fields {
-			build(f.d, rv.Field(i), v.l[i])
+			if !f.unexported {
+				build(f.d, rv.Field(i), v.l[i])
+			}
 		}
 	case kPtr:
 		if v.p != nil {
@@ -251,7 +256,11 @@ func readback(d *desc, rv reflect.Value, bad *string) *mval {
 		v := &mval{}
 		for i, f := range d.fields {
 			if f.ignore && !rv.Field(i).IsZero() {
-				*bad = fmt.Sprintf("field %d tagged \"-\" was written by the decoder", i)
+				*bad = fmt.Sprintf("field %d (tagged \"-\" or unexported) was written by the decoder", i)
+			}
+			if f.unexported {
+				v.l = append(v.l, zeroVal(f.d))
+				continue
 			}
 			v.l = append(v.l, readback(f.d, rv.Field(i), bad))
 		}
@@ -726,17 +735,36 @@ func allocDeltaAlways(f func()) uint64 {
 }
 
 // kDecode: go-kardia DecodeBytes into a fresh value of rt, guarded and measured.
-func kDecode(t ev.TB, ct func() string, rt reflect.Type, b []byte) (reflect.Value, error) {
+func kDecode(t ev.TB, ct func() string, tg *target, b []byte) (reflect.Value, error) {
+	rt := tg.d.rtype(flK)
 	ptr := reflect.New(rt)
 	var err error
 	var delta uint64
 	ev.Guard(t, ct, func() {
 		delta = allocDelta(func() { err = krlp.DecodeBytes(b, ptr.Interface()) })
 	})
-	if lim := uint64(allocPerByte*len(b)+allocSlack) + 4*uint64(rt.Size()); delta > lim {
+	// per input byte: 512 bytes of bookkeeping plus (slice growth included) four values of the largest type involved
+	if lim := uint64(len(b))*(allocPerByte+4*tg.maxSize) + allocSlack + 4*tg.maxSize; delta > lim {
 		ev.Violation(t, "alloc.decodebytes-unbounded", ct(), "DecodeBytes allocated %d bytes for a %d-byte input (bound %d) err=%v", delta, len(b), lim, err)
 	}
 	return ptr.Elem(), err
+}
+
+// readChunks drains r through a buffer of n bytes.
+func readChunks(r io.Reader, n int) ([]byte, error) {
+	var out []byte
+	buf := make([]byte, n)
+	for i := 0; i < 1<<20; i++ {
+		k, err := r.Read(buf)
+		out = append(out, buf[:k]...)
+		if err == io.EOF {
+			return out, nil
+		}
+		if err != nil {
+			return out, err
+		}
+	}
+	return out, fmt.Errorf("reader does not end")
 }
 
 type plainReader struct{ r io.Reader } // hides ReadByte: the Stream wraps it in a bufio.Reader
@@ -746,15 +774,24 @@ func (p plainReader) Read(b []byte) (int, error) { return p.r.Read(b) }
 // ---------------------------------------------------------------- the typed check, shared by the rapid test and the fuzz target
 
 type target struct {
-	d    *desc
-	ft   feat
-	geth bool // type is in the subset go-ethereum v1.9.15 supports (no "optional")
-	gethDec bool // ... and its decoder is usable as acceptance oracle (no [1]byte, see feat.byteArr1)
+	d       *desc
+	ft      feat
+	maxSize uint64 // largest Go size of the type or any type below it: what one input byte may legitimately allocate
+	geth    bool   // type is in the subset go-ethereum v1.9.15 supports (no "optional")
+	gethDec bool   // ... and its decoder is usable as acceptance oracle (no [1]byte, see feat.byteArr1)
 }
 
 func newTarget(d *desc) *target {
 	ft := d.features()
-	return &target{d: d, ft: ft, geth: !ft.optional, gethDec: !ft.optional && !ft.byteArr1}
+	tg := &target{d: d, ft: ft, geth: !ft.optional, gethDec: !ft.optional && !ft.byteArr1}
+	d.walk(map[*desc]bool{}, func(x *desc, f *fieldDesc) {
+		if x != nil {
+			if sz := uint64(x.rtype(flK).Size()); sz > tg.maxSize {
+				tg.maxSize = sz
+			}
+		}
+	})
+	return tg
 }
 
 // checkDecode runs one byte string against one target type: acceptance and value against the model, the inverse
@@ -763,7 +800,7 @@ func checkDecode(t ev.TB, tg *target, b []byte, what string) bool {
 	d := tg.d
 	ct := func() string { return fmt.Sprintf("type=%s input=%x (%s)", d, b, what) }
 	want, st := refDecodeWhole(d, b)
-	got, err := kDecode(t, ct, d.rtype(flK), b)
+	got, err := kDecode(t, ct, tg, b)
 	switch {
 	case st == stUnspec:
 	case err == nil && st == stReject:
@@ -848,6 +885,7 @@ func TestTypedValues(t *testing.T) {
 				ev.Violation(t, "encode.differs-from-geth", ct(), "go-kardia %x, go-ethereum v1.9.15 %x (err %v)", enc, genc, gerr)
 			}
 		}
+		chunk := rapid.IntRange(1, 9).Draw(t, "chunk")
 		var enc2 []byte
 		var buf bytes.Buffer
 		var rdSize int
@@ -858,7 +896,7 @@ func TestTypedValues(t *testing.T) {
 			e3 = krlp.Encode(&buf, arg)
 			var r io.Reader
 			if rdSize, r, e4 = krlp.EncodeToReader(arg); e4 == nil {
-				rdBytes, e4 = io.ReadAll(plainReader{r})
+				rdBytes, e4 = readChunks(r, chunk)
 			}
 		})
 		if e2 != nil || !bytes.Equal(enc2, enc) {
@@ -878,7 +916,7 @@ func TestTypedValues(t *testing.T) {
 			if st != stOK || renderS(d, want) != vs {
 				t.Fatalf("harness: reference decoder does not invert the reference encoder: %s -> %x -> %v (st %d)", ct(), ref, want, st)
 			}
-			got, derr := kDecode(t, ct, rtK, enc)
+			got, derr := kDecode(t, ct, tg, enc)
 			if derr != nil {
 				ev.Violation(t, "roundtrip.own-encoding-rejected", ct(), "DecodeBytes(EncodeToBytes(v)) = %v for %x", derr, enc)
 			} else {
